@@ -214,8 +214,25 @@ def run_e2(I, flags, seq, argv_extra=None, hook_factory=symbolic_hook,
 def x_of(run, point):
     """(s, p) -> z3 term of the matching variable at ``point`` (0 when the
     variable is not part of the problem: PuLP leaves its value None)."""
-    x = {}
+    by = {}
     for row in run.solver.model.pairs:
         for pair in row:
-            x[(pair.studentID, pair.projectID)] = point.of(pair.lp_var, z3.IntVal(0))
+            by.setdefault((pair.studentID, pair.projectID), []).append(point.of(pair.lp_var, z3.IntVal(0)))
+    x = {}
+    for (s, p, _) in run.inst.pairs():
+        ts = by.get((s, p), [])
+        # the acceptable pairs of the instance the FILE denotes; a pair the solver's model lacks cannot be assigned
+        x[(s, p)] = ts[0] if len(ts) == 1 else (z3.Sum(ts) if ts else z3.IntVal(0))
     return x
+
+
+def unlisted(run, point):
+    """matching variables of the solver's model for (student, project) pairs that are NOT acceptable pairs of the
+    instance the file denotes: a valid matching has none of them set"""
+    ok = {(s, p) for (s, p, _) in run.inst.pairs()}
+    out = []
+    for row in run.solver.model.pairs:
+        for pair in row:
+            if (pair.studentID, pair.projectID) not in ok:
+                out.append(point.of(pair.lp_var, z3.IntVal(0)))
+    return out
